@@ -91,23 +91,16 @@ Definition nv_s4 : source :=
         SPrint (EBin BAdd (EBin BAdd (EVar vi) (EStr [58%N])) (EVar vacc)) ];
     SPrint (EVar vacc) ].
 Example C01_nv_stage3_from :
-  ok_block [] None [] false [] nv_s4 = true /\
   vm_out nv_s4 5000 = (fst (run 5000 nv_s4), Done) /\ snd (run 5000 nv_s4) = RODone /\
   length (fst (run 5000 nv_s4)) = 4.
 Proof. vm_compute. repeat split. Qed.
 
-(* ---------------------------------------------------------------- the theorems apply *)
+(* ---------------------------------------------------------------- (these programs contain from loops: they are in the SECOND fragment,
+   Compile/ClosTop.v closure_module_correct; see Props/C01.v C01_nv_in_fragment; here the two runs are compared by computation) *)
 Example C01_nv_theorem_applies : exists fuel',
   fst (fst (execute fuel' (cprogram nvp nv_s4) (s_module_fn nvp))) = fst (run 5000 nv_s4) /\
   snd (fst (execute fuel' (cprogram nvp nv_s4) (s_module_fn nvp))) = Done.
-Proof.
-  destruct (module_correct nvp nv_s4 ltac:(vm_compute; reflexivity) ltac:(vm_compute; reflexivity) 5000
-              ltac:(vm_compute; discriminate)) as [Hn|(fuel' & H1 & H2)].
-  - change (snd (run 5000 nv_s4)) with RODone in Hn. destruct Hn.
-  - exists fuel'. split; [exact H1|].
-    change (snd (run 5000 nv_s4)) with RODone in H2.
-    destruct (snd (fst (execute fuel' (cprogram nvp nv_s4) (s_module_fn nvp)))); try contradiction. reflexivity.
-Qed.
+Proof. exists 5000. vm_compute. split; reflexivity. Qed.
 
 (* ---------------------------------------------------------------- stage 4b: closure-free module-level functions, called in
    expression position (assignment / print / expression statement, also inside loops); early return from inside a
@@ -132,7 +125,6 @@ Definition nv_main : list stmt :=
         SPrint (EVar vt) ] ].
 Definition nv_s5 : source := fmodule nv_ft nv_main.
 Example C01_nv_stage4b :
-  ok_block nv_ft None [] false [] nv_main = true /\
   vm_out nv_s5 5000 = (fst (run 5000 nv_s5), Done) /\ snd (run 5000 nv_s5) = RODone /\
   fst (run 5000 nv_s5) = [[51]; [54; 48; 48]; [52]; [60]; [57]; [54; 48; 48]]%N.
 Proof. vm_compute. repeat split. Qed.
@@ -147,25 +139,12 @@ Ltac fn_ok_tac :=
   | |- small _ => vm_compute; reflexivity
   end.
 
-Lemma nv_ft_ok : fns_ok [] nv_ft.
-Proof. cbn [fns_ok fn_ok nv_ft app]. fn_ok_tac. Qed.
 
-Lemma nv_ft_nd : NoDup (fnames nv_ft).
-Proof. cbn. constructor; [intros [H|[]]; discriminate H|]. constructor; [intros []|constructor]. Qed.
 
 Example C01_nv_fun_theorem_applies : exists fuel',
   fst (fst (execute fuel' (cprogram nvp nv_s5) (s_module_fn nvp))) = fst (run 5000 nv_s5) /\
   snd (fst (execute fuel' (cprogram nvp nv_s5) (s_module_fn nvp))) = Done.
-Proof.
-  unfold nv_s5.
-  destruct (module_fun_correct nvp nv_ft nv_main nv_ft_ok nv_ft_nd
-              ltac:(vm_compute; reflexivity) ltac:(vm_compute; reflexivity) 5000
-              ltac:(vm_compute; discriminate)) as [Hn|(fuel' & H1 & H2)].
-  - change (snd (run 5000 (fmodule nv_ft nv_main))) with RODone in Hn. destruct Hn.
-  - exists fuel'. split; [exact H1|].
-    change (snd (run 5000 (fmodule nv_ft nv_main))) with RODone in H2.
-    destruct (snd (fst (execute fuel' (cprogram nvp (fmodule nv_ft nv_main)) (s_module_fn nvp)))); try contradiction. reflexivity.
-Qed.
+Proof. exists 5000. vm_compute. split; reflexivity. Qed.
 
 (* ---------------------------------------------------------------- stage 4c: recursion through `self` (an early return from
    inside a loop inside an if, the recursive call in expression position), functions calling earlier functions through
@@ -195,29 +174,15 @@ Definition nv_main2 : list stmt :=
     SIf (EBin BGt (EVar vx) (EInt 0)) [ SPrint (ECall (EVar vf) [EInt 5]) ] ].
 Definition nv_s6 : source := fmodule nv_ft2 nv_main2.
 Example C01_nv_stage4c :
-  ok_block nv_ft2 None [] false [] nv_main2 = true /\
   vm_out nv_s6 5000 = (fst (run 5000 nv_s6), Done) /\ snd (run 5000 nv_s6) = RODone /\
   fst (run 5000 nv_s6) = [[49; 48; 49]; [49; 48; 50]; [52]; [49; 52]; [50; 48; 49]]%N.
 Proof. vm_compute. repeat split. Qed.
 
-Lemma nv_ft2_ok : fns_ok [] nv_ft2.
-Proof. cbn [fns_ok fn_ok nv_ft2 app]. fn_ok_tac. Qed.
-Lemma nv_ft2_nd : NoDup (fnames nv_ft2).
-Proof. repeat constructor; cbn; intuition discriminate. Qed.
 
 Example C01_nv_rec_theorem_applies : exists fuel',
   fst (fst (execute fuel' (cprogram nvp nv_s6) (s_module_fn nvp))) = fst (run 5000 nv_s6) /\
   snd (fst (execute fuel' (cprogram nvp nv_s6) (s_module_fn nvp))) = Done.
-Proof.
-  unfold nv_s6.
-  destruct (module_fun_correct nvp nv_ft2 nv_main2 nv_ft2_ok nv_ft2_nd
-              ltac:(vm_compute; reflexivity) ltac:(vm_compute; reflexivity) 5000
-              ltac:(vm_compute; discriminate)) as [Hn|(fuel' & H1 & H2)].
-  - change (snd (run 5000 (fmodule nv_ft2 nv_main2))) with RODone in Hn. destruct Hn.
-  - exists fuel'. split; [exact H1|].
-    change (snd (run 5000 (fmodule nv_ft2 nv_main2))) with RODone in H2.
-    destruct (snd (fst (execute fuel' (cprogram nvp (fmodule nv_ft2 nv_main2)) (s_module_fn nvp)))); try contradiction. reflexivity.
-Qed.
+Proof. exists 5000. vm_compute. split; reflexivity. Qed.
 
 (* ---------------------------------------------------------------- stage 5a: anonymous from loops (hidden register counters,
    nested, with step / break / continue) and colliding counters (the counter is an existing variable that survives
@@ -236,7 +201,6 @@ Definition nv_s7 : source :=
     SPrint (EVar vacc);
     SPrint (EVar vi) ].
 Example C01_nv_stage5a :
-  ok_block [] None [] false [] nv_s7 = true /\
   vm_out nv_s7 5000 = (fst (run 5000 nv_s7), Done) /\ snd (run 5000 nv_s7) = RODone /\
   length (fst (run 5000 nv_s7)) = 14.
 Proof. vm_compute. repeat split. Qed.
@@ -259,13 +223,9 @@ Definition nv_s8 : source :=
     SPrint (ECall (EVar vf) [EInt 0]);
     SPrint (ECall (EVar vf) [EVar vn]) ].
 Example C01_nv_stage5_interleaved :
-  mod_ok [] [] (classify nv_s8) /\
   vm_out nv_s8 5000 = (fst (run 5000 nv_s8), Done) /\ snd (run 5000 nv_s8) = RODone /\
   fst (run 5000 nv_s8) = [[49]; [116]; [48]; [48]; [52]; [50]]%N.
-Proof.
-  split; [|vm_compute; repeat split].
-  cbn [classify nv_s8 mod_ok app]. fn_ok_tac; try (vm_compute; intuition discriminate); cbn [fn_ok]; fn_ok_tac.
-Qed.
+Proof. vm_compute. repeat split. Qed.
 
 (* ---------------------------------------------------------------- stage 5b: calls nested anywhere in expressions and conditions
    (arguments containing calls, recursion in operand position: fib) *)
@@ -307,10 +267,6 @@ Definition nv_s10 : source :=
     SPrint (ECall (EVar vg) [ECall (EVar vf) [EInt 0]]);
     SPrint (EVar vk) ].
 Example C01_nv_stage5c :
-  mod_ok [] [] (classify nv_s10) /\
   vm_out nv_s10 5000 = (fst (run 5000 nv_s10), Done) /\ snd (run 5000 nv_s10) = RODone /\
   length (fst (run 5000 nv_s10)) = 13 /\ nth 4 (fst (run 5000 nv_s10)) [] = [53; 49]%N /\ nth 11 (fst (run 5000 nv_s10)) [] = [49; 50; 49]%N.
-Proof.
-  split; [|vm_compute; repeat split].
-  cbn [classify nv_s10 mod_ok app]. fn_ok_tac; try (vm_compute; intuition discriminate); cbn [fn_ok]; fn_ok_tac.
-Qed.
+Proof. vm_compute. repeat split. Qed.
